@@ -64,7 +64,7 @@ func c02r1(c *core.Ctx) {
 				if _, ok := callTo(m, c2, tr.Add); ok && m.ExprString(c2.Args[0]) == ent {
 					return true
 				}
-				if _, ok := callTo(m, c2, tr.SetEntity); ok && m.ExprString(roleArg(tr.SetEntity, c2, "entity")) == ent {
+				if _, ok := callTo(m, c2, tr.SetEntity); ok && m.ExprString(roleArg(m, tr.SetEntity, c2, "entity")) == ent {
 					return true
 				}
 				return false
@@ -279,7 +279,7 @@ func c02r3(c *core.Ctx) {
 					return true
 				}
 				// the row argument: <index>.row with <index> defined from entities[ent.id]
-				sel, isS := m.StripConv(c2.Args[0]).(*ast.SelectorExpr)
+				sel, isS := m.StripConv(m.Inline(m.StripConv(c2.Args[0]))).(*ast.SelectorExpr)
 				if !isS || fieldKeyOf(m, sel) != "entityIndex.row" {
 					return true
 				}
